@@ -62,6 +62,58 @@ MkDecl(s) ==
                                    Read("C06.e", "sample", Tm, "integrator")>>]
   IN WithHorizon(d1, s.hz, IF s.seed % 2 = 0 THEN One ELSE Q(-1, 2), TBase(s.grid, N))
 
+(***************************************************************************)
+(* C06 family: grid classes x formulations x bounds x perturbed grid        *)
+(* variables.  bnd: "none" | "minlo" (min below the shortest interval) |    *)
+(* "minhi" (min above it: infeasible) | "maxhi" (max above the longest) |   *)
+(* "maxlo" (max below it: infeasible).  pert: 0 = consistent grid           *)
+(* variables, k > 0 = the k-th grid variable is shifted by 1/2.             *)
+(***************************************************************************)
+MinLen(g) == LET L == Lengths(g) IN CHOOSE x \in {L[i] : i \in 1..Len(L)} : \A j \in 1..Len(L) : Leq(x, L[j])
+MaxLen(g) == LET L == Lengths(g) IN CHOOSE x \in {L[i] : i \in 1..Len(L)} : \A j \in 1..Len(L) : Leq(L[j], x)
+
+GridG(s) ==
+  LET N == s.N
+      G0 == IF s.grid = "free" THEN FreeG ELSE WithLocal(GridOf(s.grid, N), s.lt0, s.lT)
+      T == TBase(IF s.grid = "free" THEN "uni" ELSE s.grid, N)
+      decl == IF s.grid = "free"
+              THEN CumSum(Zero, [k \in 1..N |-> Mul(T, Q(IF k % 2 = 1 THEN 1 ELSE 2, (3 * N - (N % 2)) \div 2))], 1)
+              ELSE Declared(G0, N, Zero, T)
+  IN CASE s.bnd = "none"  -> G0
+       [] s.bnd = "minlo" -> WithMin(G0, Mul(MinLen(decl), Q(1, 2)))
+       [] s.bnd = "minhi" -> WithMin(G0, Mul(MinLen(decl), Q(3, 2)))
+       [] s.bnd = "maxhi" -> WithMax(G0, Mul(MaxLen(decl), Q(3, 2)))
+       [] s.bnd = "maxlo" -> WithMax(G0, Mul(MaxLen(decl), Q(1, 2)))
+
+MkDeclG(s) ==
+  LET N == s.N
+      d0 == Rhs("R2", N)
+      d1 == [d0 EXCEPT !.method = Method(s.meth, N, s.M, "rk", GridG(s)),
+                       !.reads = <<Read("C06.e", "sample", Tm, "control"), Read("C06.e", "sample", Tm, "integrator"),
+                                   Read("C06.e", "sample", DTs, "control"), Read("C06.e", "sample", DTc, "control"),
+                                   Read("C06.e", "sample", DTs, "integrator"), Read("C06.e", "sample", DTc, "integrator")>>]
+  IN WithHorizon(d1, s.hz, IF s.seed % 2 = 0 THEN One ELSE Q(-1, 2), TBase(IF s.grid = "free" THEN "uni" ELSE s.grid, N))
+
+MkProbeG(d, s) ==
+  LET N == d.method.N
+      G == d.method.grid
+      p0 == MkProbe(d, s.seed)
+      t0 == d.t0.v
+      T == d.T.v
+      decl == IF G.kind = "free"
+              THEN CumSum(t0, [k \in 1..N |-> Mul(T, Q(IF k % 2 = 1 THEN 1 ELSE 2, (3 * N - (N % 2)) \div 2))], 1)
+              ELSE Declared(G, N, t0, T)
+      gv0 == GvOf(decl, N)
+      \* perturb the pert-th *existing* grid variable: T_local entries first, then t0_local entries
+      nTl == IF HasTl(G) THEN (IF G.kind = "free" THEN N ELSE N - 1) ELSE 0
+      gv == IF s.pert = 0 THEN gv0
+            ELSE IF s.pert <= nTl
+                 THEN [gv0 EXCEPT !.Tl[IF G.kind = "free" THEN s.pert ELSE s.pert + 1] = Add(@, Q(1, 2))]
+                 ELSE [gv0 EXCEPT !.t0l[s.pert - nTl + 1] = Add(@, Q(1, 2))]
+  IN [p0 EXCEPT !.gv = gv]
+
+NGridVars(s) == (IF s.grid = "free" THEN s.N ELSE IF s.lT THEN s.N - 1 ELSE 0) + (IF s.lt0 THEN s.N ELSE 0)
+
 MaxN == IF Thorough THEN 4 ELSE 3
 MaxM == IF Thorough THEN 3 ELSE 2
 
@@ -90,21 +142,31 @@ Space ==
                  grid : {"uni", "geo"}, hz : {"num", "fb"},
                  seed : {Seed}, cons : {<<>>}, obj : ObjSets] : Wellformed(s)}
 
+SpaceG ==
+  {s \in [meth : {"MS", "SS"}, N : 1..MaxN, M : 1..2, grid : {"uni", "geo", "geoL", "fun", "free"},
+           lt0 : BOOLEAN, lT : BOOLEAN, bnd : {"none", "minlo", "minhi", "maxhi", "maxlo"},
+           hz : {"num", "fT", "fb"}, pert : 0..(2 * MaxN), seed : {Seed}, cons : {<<>>}, obj : {<<>>}] :
+       /\ (s.grid \in {"fun", "free"} => ~s.lt0 /\ ~s.lT)      \* FunctionGrid cannot be localized; FreeGrid is localized by construction
+       /\ s.pert <= NGridVars(s)
+       /\ (s.bnd # "none" => s.hz # "num" \/ s.grid = "free")    \* bounds need a variable to act on
+       /\ (s.hz = "num" => s.seed = Seed)}
+
 Code(s) == s.N + 3 * s.M + s.seed + Len(s.cons) + Len(s.obj)
-           + (CASE s.grid = "uni" -> 0 [] s.grid = "geo" -> 1 [] s.grid = "geoL" -> 2 [] s.grid = "fun" -> 3)
+           + (CASE s.grid = "uni" -> 0 [] s.grid = "geo" -> 1 [] s.grid = "geoL" -> 2 [] s.grid = "fun" -> 3 [] OTHER -> 4)
            + (CASE s.meth = "MS" -> 0 [] OTHER -> 5)
 
-Init == sc \in {s \in Space : Code(s) % Parts = Part}
+Init == sc \in {s \in (IF Family = "C06" THEN SpaceG ELSE Space) : Code(s) % Parts = Part}
 Next == UNCHANGED sc
 
-Emit == LET d == MkDecl(sc)
-            pr == MkProbe(d, sc.seed)
-        IN TLCSet(1, Append(TLCGet(1), [sc |-> sc, decl |-> d, probe |-> pr, pred |-> Predict(d, pr, MkProbe(d, sc.seed + 4))]))
+Emit == LET d == IF Family = "C06" THEN MkDeclG(sc) ELSE MkDecl(sc)
+            pr == IF Family = "C06" THEN MkProbeG(d, sc) ELSE MkProbe(d, sc.seed)
+            pr2 == [MkProbe(d, sc.seed + 4) EXCEPT !.gv = pr.gv]
+        IN TLCSet(1, Append(TLCGet(1), [sc |-> sc, decl |-> d, probe |-> pr, pred |-> Predict(d, pr, pr2)]))
 
 (* model-level invariant checked on every scenario: the as-built placement
    equals the declared placement when no deviation is enabled *)
 PlacementOK ==
-  LET d == MkDecl(sc)
+  LET d == IF Family = "C06" THEN MkDeclG(sc) ELSE MkDecl(sc)
   IN \A i \in 1..Len(d.cons) :
         EmittedPoints(d.cons[i], d.method.N, d.method.M, {}) = DeclaredPoints(d.cons[i], d.method.N, d.method.M)
 
